@@ -378,7 +378,7 @@ func genRun(t *rapid.T, lbl, failOn string, lint bool) RunSpec {
 	return r
 }
 
-func genRuns(t *rapid.T, lint bool) []RunSpec {
+func genRuns(t *rapid.T, lint, reference bool) []RunSpec {
 	var runs []RunSpec
 	for i, f := range flagSev {
 		runs = append(runs, genRun(t, fmt.Sprintf("run%d", i), f, lint))
@@ -394,7 +394,7 @@ func genRuns(t *rapid.T, lint bool) []RunSpec {
 	for i := 0; i < extra; i++ {
 		runs = append(runs, genRun(t, fmt.Sprintf("extra%d", i), f, lint))
 	}
-	if !lint || rapid.IntRange(0, 3).Draw(t, "teamcity") == 0 {
+	if !lint || reference || rapid.IntRange(0, 3).Draw(t, "teamcity") == 0 {
 		r := genRun(t, "tc", rapid.SampledFrom(flagSev).Draw(t, "tc.failon"), lint)
 		r.TeamCity = true
 		if !r.wantsJSON() {
@@ -414,8 +414,17 @@ func genRuns(t *rapid.T, lint bool) []RunSpec {
 	return runs
 }
 
+func hasTag(in Input, tag string) bool {
+	for _, t := range in.Tags {
+		if t == tag {
+			return true
+		}
+	}
+	return false
+}
+
 func lintOpts() GenOpts {
-	return GenOpts{MinFiles: 1, MaxFiles: 4, MaxGroups: 2, MaxRules: 4, PoolSize: 4, ParseErrors: true, Symlinks: true, Styles: DefaultStyles()}
+	return GenOpts{LongLine: true, MinFiles: 1, MaxFiles: 4, MaxGroups: 2, MaxRules: 4, PoolSize: 4, ParseErrors: true, Symlinks: true, Styles: DefaultStyles()}
 }
 
 func genLintCase(t *rapid.T) Case {
@@ -423,7 +432,7 @@ func genLintCase(t *rapid.T) Case {
 	c.Input = GenInput(t, lintOpts())
 	c.Offline = rapid.Bool().Draw(t, "offline")
 	c.ArgStyle = rapid.SampledFrom([]string{"files", "files", "dirs", "dot"}).Draw(t, "argstyle")
-	c.Runs = genRuns(t, true)
+	c.Runs = genRuns(t, true, hasTag(c.Input, "long-line"))
 	return c
 }
 
@@ -431,6 +440,10 @@ func genCICase(t *rapid.T) Case {
 	c := Case{Kind: "ci"}
 	o := lintOpts()
 	o.Symlinks = false
+	// `pint ci` on HEAD cannot read a file with a line over 64 KiB at all ("failed to run git
+	// blame ...: bufio.Scanner: token too long", before any check runs), so such runs would only
+	// be discarded
+	o.LongLine = false
 	branch := GenInput(t, o)
 	c.Input = branch
 	// base: per branch file keep / other content / absent; plus files deleted on the branch
@@ -474,7 +487,7 @@ func genCICase(t *rapid.T) Case {
 	}
 	depScenario(t, &c)
 	c.Offline = rapid.Bool().Draw(t, "offline")
-	c.Runs = genRuns(t, false)
+	c.Runs = genRuns(t, false, true)
 	return c
 }
 
@@ -584,6 +597,10 @@ func runCase(rec *vstat.Recorder, c Case, bin string) error {
 			if !o.Completed {
 				rec.Count("discarded_runs", 1)
 				rec.Count("discard:"+o.Discard, 1)
+				if os.Getenv("VERIF_C05_DEBUG") != "" && o.Discard == "other" {
+					se := results[i].Stderr
+					fmt.Fprintf(os.Stderr, "DISCARD other: run=%+v exit=%d stderr tail: %s\n", r, o.Exit, strings.ReplaceAll(se[max(0, len(se)-400):], "\n", " | "))
+				}
 				rec.Case(fmt.Sprintf("%s:discarded:%s", c.Kind, o.Discard), false, "", nil)
 				continue
 			}
@@ -607,6 +624,9 @@ func runCase(rec *vstat.Recorder, c Case, bin string) error {
 			}
 			if r.LogLevel != "" {
 				rec.Count("log-level="+r.LogLevel, 1)
+			}
+			if hasTag(c.Input, "long-line") {
+				rec.Count("runs_on_inputs_with_a_70-100KiB_line", 1)
 			}
 			for _, tg := range c.Input.Tags {
 				if strings.HasPrefix(tg, "dep:") {
